@@ -198,6 +198,8 @@ type client struct {
 	Chunk    int
 	End      endPlan
 	NoDial   bool // dialing is driven by the check, not offered as an action
+	// WaitReplies: an end planned "after the script" waits for every reply even when pipelining.
+	WaitReplies bool
 
 	reply     []byte
 	Vals      []resp.Value
@@ -360,7 +362,7 @@ func (c *client) actions() []sim.Action {
 		if c.End.AfterTx >= 0 {
 			endDue = c.sent >= c.End.AfterTx
 		} else {
-			endDue = c.sent >= len(c.stream) && (len(c.Vals) >= len(c.Items) || c.SrvClosed || !c.Lockstep)
+			endDue = c.sent >= len(c.stream) && (len(c.Vals) >= len(c.Items) || c.SrvClosed || (!c.Lockstep && !c.WaitReplies))
 		}
 	}
 	if endDue {
